@@ -143,6 +143,25 @@ pub struct ObjSlot {
     pub saw_busy: bool,
     pub suspended_at: Option<u64>,
     pub resumed_at: Option<u64>,
+    /// a bare job queue: the harness's handle, a never-kept-alive reference for looking at it, and the value its jobs work on
+    pub is_raw: bool,
+    pub raw: Option<Arc<JobQueue>>,
+    pub raw_weak: Option<std::sync::Weak<JobQueue>>,
+    pub raw_val: usize,
+}
+
+impl ObjSlot {
+    /// (state tag, queued jobs, registered sync waiters) of the object's queue, if it still exists and nobody holds its lock
+    pub fn peek(&self) -> Option<(u8, usize, usize)> {
+        if let Some(q) = self.queue.as_ref() {
+            return q.verif_peek();
+        }
+        self.raw_weak.as_ref().and_then(|w| w.upgrade()).and_then(|q| q.verif_peek())
+    }
+    /// a bare queue whose last handle is gone
+    pub fn raw_queue_gone(&self) -> bool {
+        self.is_raw && self.raw_weak.as_ref().map_or(true, |w| w.strong_count() == 0)
+    }
 }
 
 pub struct Gate {
@@ -286,7 +305,7 @@ pub struct Cover {
 /// Reach matrix: records the state of object `o`'s queue as seen by an event about to act on it.
 pub fn cover_at(field: fn(&mut Cover) -> &mut [u64; 8], o: usize) {
     let world = w();
-    let st = world.objs.get(o).and_then(|s| s.queue.as_ref()).and_then(|q| q.verif_peek()).map(|p| p.0 as usize);
+    let st = world.objs.get(o).and_then(|s| s.peek()).map(|p| p.0 as usize);
     if let Some(st) = st {
         field(&mut world.cover)[st.min(7)] += 1;
     }
@@ -335,7 +354,7 @@ pub fn ev(code: &'static str, a: i64, b: i64) -> u64 {
     let t = me() as u32;
     w().events.push(Event { seq: s, task: t, code, a, b });
     if std::env::var_os("DESIM_TRACE").is_some() {
-        let st: Vec<String> = w().objs.iter().map(|o| format!("{:?}", o.queue.as_ref().and_then(|q| q.verif_peek()))).collect();
+        let st: Vec<String> = w().objs.iter().map(|o| format!("{:?}", o.peek())).collect();
         eprintln!("#{} task{} {} {} {}   queues {}", s, t, code, a, b, st.join(" "));
     }
     s
@@ -468,6 +487,10 @@ impl World {
                     saw_busy: false,
                     suspended_at: None,
                     resumed_at: None,
+                    is_raw: false,
+                    raw: None,
+                    raw_weak: None,
+                    raw_val: 0,
                 })
                 .collect(),
             gates: (0..prog.n_gates)
